@@ -532,7 +532,7 @@ fn run_workload(plan: &Plan, w: &Workload, run_index: u64, seed: u64, cov: &mut 
     let has_faults = !w.faults.is_empty();
 
     match plan.prop.as_str() {
-        "C05" | "C03" | "C14P" => {
+        "C05" | "C03" | "C14P" | "C10P" => {
             if has_faults {
                 harness_error("fault plan in a fault-free property run");
             }
@@ -580,13 +580,13 @@ fn run_workload(plan: &Plan, w: &Workload, run_index: u64, seed: u64, cov: &mut 
             ));
         }
         match plan.prop.as_str() {
-            "C05" | "C14P" => {
+            "C05" | "C14P" | "C10P" => {
                 if par.outcome.result != single.outcome.result {
                     let d = match (&par.outcome.result, &single.outcome.result) {
                         (Ok(a), Ok(b)) => first_diff(a, b),
                         (a, b) => format!("par {} vs single {}", res_summary(a), res_summary(b)),
                     };
-                    violation(pctx, "bytes_mismatch_par_vs_single", d);
+                    violation(pctx, if plan.prop == "C10P" { "history_dependent_result" } else { "bytes_mismatch_par_vs_single" }, d);
                 }
             }
             "C03" => {
@@ -667,6 +667,29 @@ fn run_workload(plan: &Plan, w: &Workload, run_index: u64, seed: u64, cov: &mut 
     }
 }
 
+/// (C10, multi-thread slice) gives `w` an earlier call on the same simulated main thread: a neighbouring
+/// call (one argument changed) in single- or multi-thread mode; the observed call is multi-thread, or
+/// single-thread after a multi-thread one.
+fn attach_pre_call(w: &mut Workload, pseed: u64, i: u64) {
+    let mut r = Rng::new(mix(mix(pseed, i), 0xC10_9A4));
+    w.hashq_cap = 16;
+    let mut small = w.clone();
+    small.nfull = small.nfull.min(4);
+    small.env_workers = w.env_workers.clone();
+    let (mut pw, tag) = workload::neighbour(&small, &mut r);
+    pw.workers = w.workers.or(Some(2));
+    pw.env_workers = w.env_workers.clone();
+    pw.hashq_cap = 16;
+    let par = r.chance(0.6);
+    let last_single = par && r.chance(0.4);
+    w.pre = Some(Box::new(workload::PreCall {
+        w: pw,
+        par,
+        last_single,
+        derived: tag,
+    }));
+}
+
 fn arg<'a>(args: &'a [String], name: &str) -> Option<&'a str> {
     args.iter().position(|a| a == name).and_then(|i| args.get(i + 1)).map(String::as_str)
 }
@@ -676,7 +699,7 @@ fn plan_for(prop: &str, tier: Tier, scheds: u64) -> Plan {
         "C05" => Purpose::Equivalence,
         "C03" | "C14P" => Purpose::StreamInfo,
         "C06" => Purpose::Faults,
-        "C06N" => Purpose::Equivalence,
+        "C06N" | "C10P" => Purpose::Equivalence,
         "C17P" => Purpose::Byzantine,
         other => harness_error(&format!("unknown property {other}")),
     };
@@ -738,7 +761,10 @@ fn cmd_run(args: &[String]) {
     let t0 = std::time::Instant::now();
     let mut last = from;
     for i in from..count {
-        let w = gen(plan.purpose, tier, pseed, i);
+        let mut w = gen(plan.purpose, tier, pseed, i);
+        if prop == "C10P" {
+            attach_pre_call(&mut w, pseed, i);
+        }
         // identical workloads always land in the same child, so per-child distinct counts add up exactly
         if w.hash() % nchild != child {
             continue;
